@@ -1,5 +1,5 @@
 """C14 - arbitrary program text never crashes the compiler.
-(S) spec/Mutate.tla: token-level single insertion / deletion / substitution over a ~55 token alphabet (including pseudo
+(S) spec/Mutate.tla: token-level single insertion / deletion / substitution over a 47 token alphabet (including pseudo
     tokens for the raw bytes NUL, 0xFF, lone quote, lone backslash, line break); TLC enumerates EVERY single mutation of
     each seed program's token sequence and takes random multi-mutation walks (-simulate).  spec/Driver.tla is the life
     cycle a run must follow; it has no transition for a signal, an assertion, an internal error or a time-out.
@@ -47,7 +47,7 @@ def detokenise(toks):
 def seeds_for(tier):
     texts = list(FIXED_SEEDS[:2] if tier == "quick" else FIXED_SEEDS)
     n = 0 if tier == "quick" else 37
-    if n:       # the n shortest (in tokens) of a pool of generated programs: the number of single mutants is ~110 per token
+    if n:       # the n shortest (in tokens) of a pool of generated programs: the number of single mutants is ~94 per token
         Ps = gen.programs(seed() * 1000 + 14, 150, features=["neg", "agg", "arith", "str", "rec", "adt", "range", "recursion", "facts", "cmp"],
                           n_idb=(1, 1), max_edbs=1, edb_sample=2)
         pool = []
@@ -134,12 +134,16 @@ def run(tier, replay=None):
         d = os.path.join(rundir, lab)
         r = dt.run_souffle(lab, d, text=b, args=args)
         shutil.rmtree(d, ignore_errors=True)
+        r.stdout = ""; r.stderr = r.stderr[-3000:]
         return r
     with cf.ThreadPoolExecutor(NCPU) as ex:
         runs = list(ex.map(one, jobs))
     text_of = {lab: b for lab, b, _ in jobs}
     args_of = {lab: a for lab, _, a in jobs}
-    judged = [r for r in runs if not (r.rc not in (0, 1) and dt.known_crash(res, "C14", r.stderr))]
+    for r in runs:
+        if r.infra:
+            res.infra_errors.append("souffle could not be started for %s: %s" % (r.label, r.stderr[-200:]))
+    judged = [r for r in runs if not r.infra and not (r.rc not in (0, 1) and dt.known_crash(res, "C14", r.stderr))]
     verdicts = dt.validate(judged, wd, "trace", res)
     for r in judged:
         if verdicts[r.label] is False:
